@@ -720,7 +720,8 @@ def run_c03(ctx):
             out += [dict(maxiter=m) for m in {0, 1, max(n_iter - 2, 0), max(n_iter - 1, 0), n_iter, n_iter + 1}]
         return out
 
-    def record(s, kw, tag):
+    def record(s, kw, tag, nref=None):
+        """nref: sweeps per phase of the same call with the default (practically unlimited) budget, when it returned"""
         c = drv_solve.solve_case(s, len(cases), **kw)
         c["tag"] = tag
         # (only runs of the loop on THIS system: the recorded component names are those of the case)
@@ -740,6 +741,8 @@ def run_c03(ctx):
             run["args"] = {"vtol": _cell(kw.get("vtol", 1e-6)), "itol": _cell(kw.get("itol", 1e-6)), "maxiter": int(kw.get("maxiter", 10000))}
             if j == len(got) - 1 and c["outcome"] == "exc" and run["end"] is not None:
                 run["end"] = dict(run["end"], kind="raise", exc=c["exc"])
+            run["has_nref"] = bool(nref is not None and j < len(nref))
+            run["nref"] = int(nref[j]) if run["has_nref"] else 0
             run["id"] = len(runs)
             run["case"] = c["id"]
             run["has_table"] = c["outcome"] == "ok"
@@ -762,7 +765,8 @@ def run_c03(ctx):
             c0 = record(s, {}, "std")
             n_iter = c0["sweeps"] if c0["outcome"] == "ok" else None
             for kw in settings(n_iter)[1:]:
-                record(s, kw, "std")
+                # (runs that differ from the first one in the budget only are also judged against its sweep counts)
+                record(s, kw, "std", nref=c0["sweeps_per_phase"] if (c0["outcome"] == "ok" and c0.get("tap") and set(kw) == {"maxiter"}) else None)
             # with phases: maxiter around the sweep count of EVERY phase (a phase other than the last may be the slow one)
             if c0["outcome"] == "ok" and len(set(c0["sweeps_per_phase"])) > 1:
                 for m in sorted({x - 1 for x in c0["sweeps_per_phase"]} | set(c0["sweeps_per_phase"])):
